@@ -468,7 +468,20 @@ func c11Forwarder(c *core.Ctx) {
 		return
 	}
 	fr, ok := core.Strip(up.Call.Args[0]).(*ssa.Slice)
-	if !ok || fr.Low == nil || fr.High == nil || !sameVal(fr.X, buf) {
+	// The framing loop may have been moved into a worker that is handed the unread window
+	// buffer[p0:w] and walks it with a cursor of its own, returning how far it got
+	// ("re-based" form): the frame is then window[q : q+size], the completeness test is
+	// len(window)-q >= size, and the caller advances p0 by what the worker returns.
+	var window *ssa.Slice // buffer[p0:w] as the worker's parameter resolves to it
+	var Pout *ssa.Phi    // the parse cursor of the receive loop (p0)
+	if ok && fr.Low != nil && fr.High != nil && !sameVal(fr.X, buf) && up.Parent() != fn {
+		if w0, isSl := core.Resolve(fr.X).(*ssa.Slice); isSl && w0.Low != nil && w0.High != nil && sameVal(w0.X, buf) && sameVal(w0.High, W2) {
+			if p0, isP0 := core.Resolve(w0.Low).(*ssa.Phi); isP0 {
+				window, Pout = w0, p0
+			}
+		}
+	}
+	if !ok || fr.Low == nil || fr.High == nil || (!sameVal(fr.X, buf) && window == nil) {
 		c.Viol("R11.1", "frame-is-the-block", c.Pos(up), "the frame handed up is not a [low:high] slice of the receive buffer")
 		return
 	}
@@ -515,7 +528,14 @@ func c11Forwarder(c *core.Ctx) {
 	// completeness gate
 	isPending := func(v ssa.Value) bool {
 		b, ok := core.StripConv(v).(*ssa.BinOp)
-		return ok && b.Op == token.SUB && sameVal(b.X, W2) && core.Resolve(b.Y) == ssa.Value(P)
+		if !ok || b.Op != token.SUB || core.Resolve(b.Y) != ssa.Value(P) {
+			return false
+		}
+		if window != nil {
+			l, isLen := core.LenOf(b.X)
+			return isLen && core.Strip(l) == core.Strip(fr.X)
+		}
+		return sameVal(b.X, W2)
 	}
 	complete := &core.Atom{Name: "pending>=size", Match: func(cond ssa.Value) (int, int) {
 		op, x, y, ok := core.Cmp(cond)
@@ -548,6 +568,13 @@ func c11Forwarder(c *core.Ctx) {
 			continue
 		}
 		sl, ok := unwrapBytes(core.Resolve(unwrapBytes(cl.Call.Args[0]))).(*ssa.Slice)
+		if window != nil {
+			// window[q:]: the window ends at the write cursor
+			if !ok || sl.Low == nil || core.Resolve(sl.Low) != ssa.Value(P) || core.Strip(sl.X) != core.Strip(fr.X) || (sl.High != nil && func() bool { l, isLen := core.LenOf(sl.High); return !isLen || core.Strip(l) != core.Strip(fr.X) }()) {
+				okWin = false
+			}
+			continue
+		}
 		if !ok || sl.Low == nil || sl.High == nil || core.Resolve(sl.Low) != ssa.Value(P) || !sameVal(sl.High, W2) || !sameVal(sl.X, buf) {
 			okWin = false
 		}
@@ -557,6 +584,56 @@ func c11Forwarder(c *core.Ctx) {
 		okWin = core.Strip(rdrs[0]) == core.Strip(rdrs[1])
 	}
 	c.Decide(okWin, "R11.1", "header-parsed-from-unread-window", pos, "T and L are read consecutively from buffer[p:w]", "the type and length are not parsed consecutively from exactly the unread window buffer[parseCursor:writeCursor]: a header split across reads is misparsed")
+	if window != nil {
+		// the worker returns its cursor, and the receive loop advances its parse cursor by
+		// exactly that
+		w := up.Parent()
+		retQ := true
+		core.Instrs(w, func(in ssa.Instruction) {
+			if r, isR := in.(*ssa.Return); isR && len(r.Results) >= 1 {
+				v := core.Resolve(r.Results[0])
+				if k, isC := core.ConstInt(v); isC && k == 0 {
+					return
+				}
+				if v != ssa.Value(P) && !phiFeeds(v, P) && !phiFeeds(P, v) {
+					retQ = false
+				}
+			}
+		})
+		adv := false
+		for _, e := range Pout.Edges {
+			if bo, isB := core.Strip(e).(*ssa.BinOp); isB && bo.Op == token.ADD {
+				for _, pair := range [][2]ssa.Value{{bo.X, bo.Y}, {bo.Y, bo.X}} {
+					if core.Resolve(pair[0]) == ssa.Value(Pout) {
+						if ex, isEx := core.Strip(pair[1]).(*ssa.Extract); isEx && ex.Index == 0 {
+							if cl, isCl := ex.Tuple.(*ssa.Call); isCl && cl.Call.StaticCallee() == w {
+								adv = true
+							}
+						}
+					}
+				}
+			}
+		}
+		// (the sum may reach the header phi through a join phi)
+		if !adv {
+			for _, ph := range phisOf(fn) {
+				if !phiFeeds(ph, Pout) {
+					continue
+				}
+				for _, e := range ph.Edges {
+					if bo, isB := core.Strip(e).(*ssa.BinOp); isB && bo.Op == token.ADD {
+						if ex, isEx := core.Strip(bo.Y).(*ssa.Extract); isEx && ex.Index == 0 {
+							if cl, isCl := ex.Tuple.(*ssa.Call); isCl && cl.Call.StaticCallee() == w {
+								adv = true
+							}
+						}
+					}
+				}
+			}
+		}
+		c.Decide(retQ && adv, "R11.1", "worker-cursor-handed-back", c.Pos(up), "the worker returns its cursor and the receive loop adds it to the parse cursor", "the framing worker does not return how far it parsed, or the receive loop does not advance its parse cursor by exactly that: delivered blocks are parsed again or bytes are skipped")
+		P = Pout
+	}
 	// compaction
 	var cp *ssa.Call
 	dstWhole := false
